@@ -1,11 +1,11 @@
 #!/bin/bash
-# usage: confirm_seed.sh <prop> <A|B> <pkgdir for demo> <caught-by signature(s)>
+# usage: [SEEDROOT=/tmp/seed2] confirm_seed.sh <prop> <A|B|C|D> <pkgdir for demo> <caught-by signature(s)>
 # Confirms a seeded change in its scratch worktree (/tmp/seed/<prop>): the patch applies, the
 # repository builds and its suite passes with it, the demo fails with it and passes without it.
 # Then stores it under /verif/seeded/<prop>-<A|B>/.
 export GOFLAGS=-mod=mod GOPROXY=off GOSUMDB=off GOTOOLCHAIN=local
 prop=$1; v=$2; pkg=$3; caught=$4
-wt=/tmp/seed/$prop; sd=$wt/SEED/$v
+wt=${SEEDROOT:-/tmp/seed}/$prop; sd=$wt/SEED/$v
 demo=$(ls $sd/*_test.go.txt | head -1); dname=zz_seed_$(basename ${demo%.txt})
 cd $wt || exit 2
 git checkout -q -- . ; rm -f $pkg/zz_seed_*_test.go
